@@ -9,6 +9,13 @@ TRUSTED_BASE = [
     "the Gallina model is a hand transcription of the Go code; the correspondence run is a differential test, as strong as its generators",
 ]
 
+CLUSTER_RULE = (
+    "cluster stream: random closed-loop schedules (960 quick / 16000 thorough, ~350-600 operations each) over clusters of "
+    "1..5 voters (+learner, +joiners up to 6 ids), random PreVote/CheckQuorum/async/StepDownOnRemoval/size-limit settings, "
+    "phases healthy/chaos/partition/crashy/confchange/snapshots/transfer/reads/limits, plus the corpus; every call into a "
+    "RawNode or its MemoryStorage is replayed on the extracted model and compared key by key; distinct_nontrivial = number of "
+    "distinct (operation kind, role before, message type, result) tuples exercised")
+
 PROPS = {
     "C12": {
         "props": "Props/C12.v",
